@@ -590,6 +590,7 @@ impl<'a> ProgGen<'a> {
             36 => format!("[{}, {}] | transpose", self.expr(d), self.expr(d)),
             37 => format!("{{a: {}}} | to_entries", self.expr(d)),
             38 => format!("({}) | ascii_downcase? // {}", self.expr(d), self.atom()),
+            39 => self.shapes_family(),
             40 | 41 => self.strings_family(),
             42 | 43 => self.paths_family(),
             44..=47 => self.census(),
@@ -598,6 +599,101 @@ impl<'a> ProgGen<'a> {
         }
     }
 
+
+    /// Four small product spaces, each chosen so that every combination is reached often:
+    /// truncated JSON text through `fromjson`/`tonumber`; subject x pattern x flags x regex
+    /// builtin; a generator that yields and then raises (or breaks) bound with `as` to a body
+    /// that yields nothing, as the argument of a builtin that wants one value; and a
+    /// computed index or slice bound that yields no key, on a target that does or does not
+    /// resolve, in path position.
+    fn shapes_family(&mut self) -> String {
+        match self.rng.below(4) {
+            0 => {
+                let text = *self.rng.pick(&[
+                    "[1.5e+10,-2E-3,{\"a\":10e+2}]", "1e+5", "-0.25E-7", "{\"a\":[true,false,null,\"x\\u00e9\"]}", "[1,2E-1]", "\"ab\\\"c\"", "[[[]]]",
+                    "{\"k\":-1.0e+0}", "123456789012345678901234567890", "0.1e-999999", "[nan]", "NaN", "-Infinity", " [ 1 , 2 ] ",
+                ]);
+                let chars: Vec<char> = text.chars().collect();
+                let cut = self.rng.urange(0, chars.len());
+                let t: String = chars[..cut].iter().collect();
+                let lit = t.replace('\\', "\\\\").replace('"', "\\\"");
+                let f = *self.rng.pick(&["fromjson", "tonumber", "(fromjson? // \"bad\")", "(tonumber? // 0)", "[fromjson]", "(tonumber | . + 1)", "fromjson | tojson"]);
+                format!("\"{lit}\" | {f}")
+            }
+            1 => {
+                let subj = *self.rng.pick(&["\"a\\n\"", "\"\\n\"", "\"a\\nb\\n\"", "\"é\\n\"", "\"\"", "\"aaa\"", "\"a\\n\\n\"", "\"xé😀\"", "\"ab\\r\\n\""]);
+                let pat = *self.rng.pick(&[
+                    "\"$\"", "\"^\"", "\"a$\"", "\"(?m)$\"", "\"\\\\b\"", "\"\"", "\"a*\"", "\"(a)|b\"", "\"$|a\"", "\"\\\\n$\"", "\"[^a]*$\"", "\"(?<x>a)?$\"", "\"é*$\"", "\".$\"",
+                ]);
+                let flags = *self.rng.pick(&["null", "\"g\"", "\"n\"", "\"gn\"", "\"x\"", "\"i\"", "\"s\"", "\"l\"", "\"gs\"", "\"ng\"", "\"nx\"", "\"in\"", "\"\""]);
+                match self.rng.below(10) {
+                    0 => format!("{subj} | test({pat}; {flags})"),
+                    1 => format!("{subj} | [match({pat}; {flags})]"),
+                    2 => format!("{subj} | capture({pat}; {flags})"),
+                    3 => format!("{subj} | [scan({pat}; {flags})]"),
+                    4 => format!("{subj} | sub({pat}; \"!\"; {flags})"),
+                    5 => format!("{subj} | gsub({pat}; \"!\"; {flags})"),
+                    6 => format!("{subj} | [splits({pat}; {flags})]"),
+                    7 => format!("{subj} | split({pat}; {flags})"),
+                    8 => format!("{subj} | [match([{pat}, {flags}])]"),
+                    _ => format!("{subj} | sub({pat}; \"<\\(.x // \"-\")>\"; {flags}), test({pat})"),
+                }
+            }
+            2 => {
+                let src = *self.rng.pick(&[
+                    "(1, error(\"x\"))", "(1, 2, error)", "(label $o | 1, break $o)", "(.[]?, error(\"y\"))", "([1], error(\"x\"))", "({a: 1}, error(\"x\"))",
+                    "(1, (null | halt_error))", "(\"a\", error(null))", "first((1, error(\"x\")), 2)", "(1, 2)", "(1 | error)",
+                ]);
+                let pat = *self.rng.pick(&["$n", "[$n]", "{a: $n}", "[$n] ?// $n", "{a: $n} ?// [$n]"]);
+                let body = *self.rng.pick(&["empty", "select(false)", "if $n then empty else empty end", "($n | select(. == \"zz\"))", "(empty, empty)", "$n", "first(empty)"]);
+                let arg = format!("{src} as {pat} | {body}");
+                match self.rng.below(16) {
+                    0 => format!("limit({arg}; \"a\", \"b\")"),
+                    1 => format!("error({arg})"),
+                    2 => format!("getpath({arg})"),
+                    3 => format!("has({arg})"),
+                    4 => format!("ltrimstr({arg})"),
+                    5 => format!("startswith({arg})"),
+                    6 => format!("join({arg})"),
+                    7 => format!("[range({arg})]"),
+                    8 => format!("nth({arg})"),
+                    9 => format!("test({arg})"),
+                    10 => format!("setpath({arg}; 1)"),
+                    11 => format!(".[{arg}]"),
+                    12 => format!(".[{arg}:]"),
+                    13 => format!("[limit(2; {arg})]"),
+                    14 => format!("try ({arg}) catch ."),
+                    _ => format!("[{arg}], ({arg})"),
+                }
+            }
+            _ => {
+                let doc = *self.rng.pick(&["{\"a\":5,\"k\":[],\"b\":[1,2,3]}", "{\"a\":{\"b\":[1,2]},\"k\":[0],\"x\":1}", "[[1,2],5,{\"a\":1}]", "{\"a\":null,\"k\":[]}", "{\"a\":\"str\",\"k\":[1]}"]);
+                let target = *self.rng.pick(&[".a.b", ".a", ".b", ".k", ".zz", "\"lit\"", "(try error(\"p\") catch .)", "(try .a.b catch .)", ".[0]", ".a.b.c", "(.a | tostring)", "."]);
+                let idx = |g: &mut Self| -> &'static str { *g.rng.pick(&["empty", ".k[]?", ".x?", ".k[]", "0", "(0, 1)", "null", "\"a\"", ".a", "error", "(.zz | .[]?)", "first(empty)", "1"]) };
+                let (i1, i2) = (idx(self), idx(self));
+                let f = match self.rng.below(8) {
+                    0 => format!("{target}[{i1}]"),
+                    1 => format!("{target}[{i1}:2]"),
+                    2 => format!("{target}[1:{i1}]"),
+                    3 => format!("{target}[{i1}:{i2}]"),
+                    4 => format!("({target} | .[{i1}])"),
+                    5 => format!("(try {target} catch .[{i1}])"),
+                    6 => format!("(try {target}[{i1}] catch .[{i2}])"),
+                    _ => format!("{target}[{i1}][{i2}:]"),
+                };
+                match self.rng.below(8) {
+                    0 => format!("{doc} | [path({f})]"),
+                    1 => format!("{doc} | del({f})"),
+                    2 => format!("{doc} | {f} = [\"x\"]"),
+                    3 => format!("{doc} | {f} |= 1"),
+                    4 => format!("{doc} | {f} += 1"),
+                    5 => format!("{doc} | [paths] | length, ({doc} | delpaths([path({f})]))"),
+                    6 => format!("{doc} | del({f}, .a)"),
+                    _ => format!("{doc} | {f}"),
+                }
+            }
+        }
+    }
 
     /// Strings, regexes, formats and number printing (multi-byte text, odd flags, empty patterns).
     fn strings_family(&mut self) -> String {
@@ -926,7 +1022,22 @@ impl<'a> ProgGen<'a> {
             38 => format!("{lit} | fromstream(1 | truncate_stream({lit} | tostream))"),
             39 => format!("fromstream({pl}, {pl2}, {lit})"),
             40 => format!("{lit} | walk(if type == \"array\" then sort else . end), walk({e})"),
-            41 => "env | length, ($ENV | type), input_line_number, $__loc__, ([inputs] | length)".into(),
+            41 => {
+                if self.rng.chance(1, 3) {
+                    return "env | length, ($ENV | type), input_line_number, $__loc__, ([inputs] | length)".into();
+                }
+                // diagnostics written to fd 2 from inside the evaluators (fd 2 may refuse the write)
+                let sink = *self.rng.pick(&[
+                    "stderr", "debug", "debug(\"m\")", "debug(., 1)", "halt_error", "halt_error(3)", "halt_error(0)", "(stderr | debug)", "[stderr]", "(debug | stderr)?",
+                    "input_line_number", "(stderr, halt_error)", "debug(\"\\(.)\")", "(try error(.) catch stderr)",
+                ]);
+                match self.rng.below(4) {
+                    0 => format!("{lit} | {sink}"),
+                    1 => format!("{het} | .[] | {sink}"),
+                    2 => format!("{lit} | {sink} | {e}"),
+                    _ => format!("({lit}, {e}) | {sink}, 1"),
+                }
+            }
             42 => format!("[limit(0; {g})], first(empty), [nth(0; empty)], (0 | until(. >= 3; . + 1))"),
             43 => {
                 if self.rng.chance(1, 3) {
@@ -1140,7 +1251,14 @@ pub fn trial(seed: u64, i: u64) -> Trial {
     let (kind, program) = match rng.weighted(&[70, 15, 15]) {
         0 => {
             let mut g = ProgGen::new(&mut rng, extreme_pct);
-            ("generated", g.expr(0))
+            // decided by a side hash, not by the trial's stream: the other 19 trials in 20 keep
+            // the programs they had before this family existed
+            if crate::core::run_seed(seed, "C30-shapes", i) % 20 == 0 {
+                let f = g.shapes_family();
+                ("generated", f)
+            } else {
+                ("generated", g.expr(0))
+            }
         }
         1 => ("token_soup", token_soup(&mut rng)),
         _ => {
